@@ -25,6 +25,7 @@ impl Out {
 
 thread_local! {
     static LAST_PANIC: RefCell<String> = RefCell::new(String::new());
+    static IN_GUARD: std::cell::Cell<u32> = const { std::cell::Cell::new(0) };
 }
 /// Silences panic output and remembers the message (per thread).
 pub fn install_quiet_panic_hook() {
@@ -37,6 +38,10 @@ pub fn install_quiet_panic_hook() {
             "panic".to_string()
         };
         let loc = info.location().map(|l| format!(" at {}:{}", l.file(), l.line())).unwrap_or_default();
+        // a panic outside `guarded` is a bug of this harness, not of the code under test: show it
+        if IN_GUARD.with(|g| g.get()) == 0 {
+            eprintln!("MACHINERY-ERROR: harness panic: {}{}", msg, loc);
+        }
         LAST_PANIC.with(|p| *p.borrow_mut() = format!("{}{}", msg, loc));
     }));
 }
@@ -49,7 +54,10 @@ pub fn last_panic() -> String {
 }
 /// Runs `f`, converting a panic into `Err(message)`.
 pub fn guarded<T>(f: impl FnOnce() -> T) -> Result<T, String> {
-    catch_unwind(AssertUnwindSafe(f)).map_err(|_| last_panic())
+    IN_GUARD.with(|g| g.set(g.get() + 1));
+    let r = catch_unwind(AssertUnwindSafe(f));
+    IN_GUARD.with(|g| g.set(g.get() - 1));
+    r.map_err(|_| last_panic())
 }
 
 #[derive(Debug, Clone, Copy, PartialEq, Eq, Hash, PartialOrd, Ord)]
